@@ -51,6 +51,7 @@ package gorums
 
 //@ func OrderedBy
 //@   props C19
+//@   inline
 //@   ensures[C19.d] result != nil && result.less == less && len(result.nodes) == 0
 
 // Sort hands the slice to sort.Sort with ms itself as sort.Interface: the call-site
@@ -61,6 +62,7 @@ package gorums
 //@ func (*MultiSorter).Sort
 //@   props C19 C14
 //@   nopanic C19
+//@   inline
 //@   requires ms != nil
 //@   on call "sort.Sort"
 //@     assert[C19.d] typeis(arg0, "*MultiSorter") && dyn(arg0) == ms
@@ -1044,3 +1046,129 @@ package gorums
 //@   props C12
 //@   nopanic C12
 //@   requires m != nil
+
+// ---------------------------------------------------------------- config.go, config_opts.go, mgr.go, node.go (C14)
+//
+// Calling a lessFunc value that is the provided key ID yields ID's result (meaning of
+// apply_lessFunc for a known function; ID's body is proved to order by id in C19).
+//@ axiom C14.apply-ID (a *RawNode, b *RawNode): a != nil && b != nil ==> (apply_lessFunc(funcval("var ID"), a, b) <==> a.id < b.id)
+
+//@ func (RawConfiguration).NodeIDs
+//@   props C14
+//@   nopanic C14
+//@   requires forall(k, 0, len(c), c[k] != nil)
+//@   loop "for i, node := range c"
+//@     invariant len(ids) == len(c) && forall(k, 0, idx, ids[k] == c[k].id)
+//@     invariant forall(k, 0, len(c), c[k] == old(c[k]))
+//@   ensures[C14.a] len(result) == len(c) && forall(k, 0, len(c), result[k] == c[k].id)
+//@   ensures[C14.d] forall(k, 0, len(c), c[k] == old(c[k]))
+
+//@ func (RawConfiguration).Nodes
+//@   props C14
+//@   ensures[C14.a] result == c
+//@ func (RawConfiguration).Size
+//@   props C14
+//@   ensures[C14.a] result == len(c)
+
+//@ func (RawConfiguration).Equal
+//@   props C14
+//@   nopanic C14
+//@   requires forall(k, 0, len(c), c[k] != nil) && forall(k, 0, len(b), b[k] != nil)
+//@   loop "for i := range c"
+//@     invariant len(c) == len(b) && forall(k, 0, idx, c[k].id == b[k].id)
+//@   ensures[C14.a] result <==> (len(c) == len(b) && forall(k, 0, len(c), c[k].id == b[k].id))
+
+//@ func (*RawManager).Node
+//@   props C14
+//@   nopanic C14
+//@   requires m != nil
+//@   ensures[C14.f] found <==> in(id, m.lookup)
+//@   ensures[C14.f] found ==> node == m.lookup[id] && node != nil && node.id == id
+//@   ensures[C14.f] !found ==> node == nil
+
+//@ func (*RawManager).Size
+//@   props C14
+//@   requires m != nil
+//@   ensures[C14.a] result == len(m.nodes)
+
+//@ func (*RawManager).NodeIDs
+//@   props C14
+//@   nopanic C14
+//@   requires m != nil
+//@   loop "for _, node := range m.nodes"
+//@     invariant len(ids) == idx && forall(k, 0, idx, ids[k] == m.nodes[k].id) && m.nodes == old(m.nodes)
+//@     invariant forall(k, 0, len(m.nodes), m.nodes[k] == old(m.nodes[k]))
+//@   ensures[C14.a] len(result) == len(m.nodes) && forall(k, 0, len(result), result[k] == m.nodes[k].id)
+
+//@ func (*RawManager).sortNodes
+//@   props C14 C15
+//@   requires m != nil
+//@   ensures[C14.f] m.lookup == old(m.lookup) && m.nodes == old(m.nodes)
+//@   ensures[C14.d] forall(b, forall(k, b != base(m.nodes) ==> elems("*RawNode")[b][k] == old(elems("*RawNode")[b][k])))
+
+//@ func (*RawManager).AddNode
+//@   props C14
+//@   nopanic C14
+//@   requires m != nil && node != nil
+//@   ensures[C14.f] result == nil ==> !old(in(node.id, m.lookup)) && in(node.id, m.lookup) && m.lookup[node.id] == node
+//@   ensures[C14.f] result == nil ==> forall(id, id != node.id ==> (in(id, m.lookup) <==> old(in(id, m.lookup))) && (in(id, m.lookup) ==> m.lookup[id] == old(m.lookup[id])))
+//@   ensures[C14.f] result == nil ==> len(m.nodes) == old(len(m.nodes)) + 1 && m.nodes[len(m.nodes)-1] == node
+//@   ensures[C14.f] result != nil ==> old(in(node.id, m.lookup)) && m.lookup == old(m.lookup) && m.nodes == old(m.nodes)
+//@   ensures[C14.f] result != nil ==> forall(id, in(id, m.lookup) <==> old(in(id, m.lookup)))
+//@   ensures node.id == old(node.id) && node.addr == old(node.addr)
+
+//@ func (*RawNode).connect
+//@   props C14
+//@   requires n != nil && mgr != nil
+//@   ensures n.mgr == mgr && n.id == old(n.id) && n.addr == old(n.addr)
+//@   trusted
+
+//@ func NewRawNodeWithID
+//@   props C14
+//@   ensures[C14.g] result1 == nil ==> result0 != nil && result0.id == id && result0.addr == tcpString(resolved(addr)) && !old(allocated(result0))
+//@   ensures[C14.g] result1 != nil ==> result0 == nil
+
+//@ func NewRawNode
+//@   props C14
+//@   ensures[C14.g] result1 == nil ==> result0 != nil && result0.addr == tcpString(resolved(addr)) && !old(allocated(result0))
+//@   ensures[C14.g] result1 != nil ==> result0 == nil
+
+//@ func NewRawConfiguration
+//@   props C14
+//@   ensures[C14.e] opt == nil ==> err != nil
+
+// And: union of two configurations (C14.b), duplicates removed through the id set m,
+// sorted by id. Ghosts: T = the temporary slice append(o.old, o.add...) that is ranged
+// over; pos[id] = slot of the node with that id in nodes; src[i] = index in T of nodes[i].
+//@ func (addConfig).newConfig
+//@   props C14
+//@   nopanic C14
+//@   requires mgr != nil && len(o.old) > 0
+//@   requires forall(k, 0, len(o.old), o.old[k] != nil) && forall(k, 0, len(o.add), o.add[k] != nil)
+//@   requires base(o.old) != base(mgr.nodes) && base(o.add) != base(mgr.nodes)
+//@   requires base(o.old) != base(o.add) || off(o.add) + len(o.add) <= off(o.old) + len(o.old)
+//@   ghost T Slice = nilslice()
+//@   ghost pos (Array Int Int) = constarr("Int", 0)
+//@   ghost src (Array Int Int) = constarr("Int", 0)
+//@   on call "append(o.old*"
+//@     after set T = res
+//@   on call "append(nodes*"
+//@     after set pos = store(pos, at(T, "*RawNode", idx - 1).id, len(res) - 1)
+//@     after set src = store(src, len(res) - 1, idx - 1)
+//@   loop "for _, n := range append"
+//@     invariant len(T) == len(o.old) + len(o.add) && rangelen == len(T) && base(nodes) != base(T) && base(nodes) != 0
+//@     invariant base(nodes) != base(o.old) && base(nodes) != base(o.add) && base(nodes) != base(mgr.nodes) && base(T) != base(mgr.nodes)
+//@     invariant forall(k, 0, len(o.old), at(T, "*RawNode", k) == old(o.old[k]))
+//@     invariant forall(k, 0, len(o.add), at(T, "*RawNode", len(o.old) + k) == old(o.add[k]))
+//@     invariant[C14.d] forall(k, 0, len(o.old), o.old[k] == old(o.old[k])) && forall(k, 0, len(o.add), o.add[k] == old(o.add[k]))
+//@     invariant m != nil && forall(id, in(id, m) ==> m[id] && 0 <= pos[id] && pos[id] < len(nodes) && nodes[pos[id]].id == id)
+//@     invariant forall(i, 0, len(nodes), nodes[i] != nil && in(nodes[i].id, m) && pos[nodes[i].id] == i)
+//@     invariant forall(i, 0, len(nodes), 0 <= src[i] && src[i] < idx && nodes[i] == at(T, "*RawNode", src[i]))
+//@     invariant[C14.b] forall(k, 0, idx, in(at(T, "*RawNode", k).id, m))
+//@     invariant len(nodes) <= idx && (idx > 0 ==> len(nodes) > 0)
+//@   ensures[C14.e] err == nil && len(nodes) > 0
+//@   ensures[C14.a] forall(i, 0, len(nodes), nodes[i] != nil) && forall(i, 0, len(nodes), forall(j, 0, len(nodes), i < j ==> nodes[i].id < nodes[j].id))
+//@   ensures[C14.d] forall(k, 0, len(o.old), o.old[k] == old(o.old[k])) && forall(k, 0, len(o.add), o.add[k] == old(o.add[k]))
+//@   ensures[C14.b] forall(i, 0, len(nodes), exists(k, 0, len(o.old), nodes[i] == o.old[k]) || exists(k, 0, len(o.add), nodes[i] == o.add[k]))
+//@   ensures[C14.b] forall(k, 0, len(o.old), exists(i, 0, len(nodes), nodes[i].id == o.old[k].id))
+//@   ensures[C14.b] forall(k, 0, len(o.add), exists(i, 0, len(nodes), nodes[i].id == o.add[k].id))
